@@ -20,9 +20,9 @@ FP = ["lib/xmldsig:", "lib/x509tools:EcdsaSignature.Pack", "lib/x509tools:.Unpac
 CLAUSE_KEYS = {1: "C19:c14n:pi-dropped", 2: "C19:c14n:ancestor-xmlns-empty", 3: "C19:c14n:redundant-redeclaration",
                4: "C19:c14n:attr-order-by-prefix", 5: "C19:c14n:attr-named-xmlns", 6: "C19:c14n:duplicate-attr"}
 
-# Genuine divergences of relic from the standards it declares, found by this check and not (yet) listed in
-# /verif/known_findings.json.  They are recorded in the evidence (coverage.provisional_findings, with the concrete
-# input) and printed as PROVISIONAL-FINDING lines instead of failing the run; every other key fails the run.
+# Genuine divergences of relic from the standards it declares, found by this check.  Every key below is listed in
+# /verif/known_findings.json (status finding), so ctx.violation prints it as KNOWN-FINDING while it reproduces; a key that
+# is NOT listed there fails the run like any other violation.  The table only documents what each key means.
 PROVISIONAL = {
     "C19:c14n:pi-dropped": "SerializeCanonical drops processing instructions; exc-c14n keeps them",
     "C19:c14n:ancestor-xmlns-empty": "pullDown treats an ancestor's xmlns=\"\" as 'not declared': an outer default namespace is pulled in (or xmlns=\"\" is emitted at the apex)",
